@@ -36,6 +36,11 @@ inductive Val where
   | dec (c : Int) (s : Nat)    -- *apd.Decimal with coefficient c and exponent -s
   | str (b : List Nat)         -- Go string (bytes)
   | bool (b : Bool)            -- Go bool (result of a comparison / TRUE / FALSE)
+  | flt (c : Int) (s : Nat) (negZero : Bool)
+                               -- Go float64 / float32 whose shortest round-trip decimal is `c / 10^s`,
+                               -- in normal form (`s = 0`: an integral value, `c` is the whole integer of any
+                               -- magnitude, e.g. 2^63 or 10^19; `s > 0`: `c` does not end in 0);
+                               -- `negZero`: the value is -0.0 (then c = 0, s = 0)
   deriving DecidableEq, Repr, Inhabited
 
 /-- A collation: `raw` = `Collation_binary` (bytes are hashed and compared as they are);
@@ -75,6 +80,15 @@ def decTrimText (c : Int) (s : Nat) : List Nat :=
   let t := decText c s
   if t.contains 46 then dropTrailing (· == 46) (dropTrailing (· == 48) t) else t
 
+/-- Go: `strconv.FormatFloat(v, 'f', -1, bits)` followed by `if str == "-0" { str = "0" }` (the
+float32/float64 arms of `HashOf`, `HashOfSimple` and `ConvertToString`): the positional text of the
+shortest round-trip decimal — every integer digit for integral values of any magnitude (no exponent
+form, no saturation at the int64 range), exactly `s` fraction digits otherwise — and -0.0 is written
+like 0.0. -/
+def fltText (c : Int) (s : Nat) (negZero : Bool) : List Nat :=
+  let t := if negZero && c == 0 then 45 :: decText c s else decText c s
+  if t == [45, 48] then [48] else t
+
 def nilKey : List Nat := [60, 110, 105, 108, 62]      -- "<nil>"
 def trueText : List Nat := [116, 114, 117, 101]       -- "true"
 def falseText : List Nat := [102, 97, 108, 115, 101]  -- "false"
@@ -88,6 +102,7 @@ def goText : Val → List Nat
   | .str b => b
   | .bool true => trueText
   | .bool false => falseText
+  | .flt c s z => fltText c s z
 
 /-- Go: `types.ConvertToString` (no length limit reached). -/
 def toStr : Val → List Nat
@@ -97,6 +112,7 @@ def toStr : Val → List Nat
   | .str b => b
   | .bool true => [49]
   | .bool false => [48]
+  | .flt c s z => fltText c s z
 
 /-! ## `hash.HashOf` -/
 
@@ -203,6 +219,7 @@ def numKey : CmpTy → Val → Option (List Nat)
   | .float64, .int i => some (intText i)
   | .float64, .dec c s => some (decTrimText c s)
   | .float64, .bool b => some (if b then [49] else [48])
+  | .float64, .flt c s z => some (fltText c s z)   -- float64 → float64: identity, then the float arm
   | _, _ => none
 
 /-- Bytes `HashOfSimple(ctx, v, t)` hashes (v non-NULL). -/
@@ -240,6 +257,7 @@ def numOf : Val → Option (Int × Nat)
   | .int i => some (i, 0)
   | .dec c s => some (c, s)
   | .bool b => some (if b then 1 else 0, 0)
+  | .flt c s _ => some (c, s)   -- the double itself (its shortest decimal determines it); -0.0 = 0.0
   | _ => none
 
 def eqNum (a b : Int × Nat) : Bool := a.1 * (pow10 b.2 : Nat) == b.1 * (pow10 a.2 : Nat)
@@ -372,6 +390,7 @@ inductive ColTy where
   | dec (s : Nat)  -- DECIMAL(12,s)
   | strBin         -- VARCHAR(20) COLLATE utf8mb4_0900_bin
   | strCi          -- VARCHAR(20) COLLATE <the case's collation>
+  | dbl            -- DOUBLE
   deriving DecidableEq, Repr, Inhabited
 
 inductive Op where
@@ -432,6 +451,7 @@ def cmpTyOf (e : Env) (lt : ColTy) (other : Option ColTy) (first : Val) : CmpTy 
   | .strBin => if other == some .strBin then .text e.bin else .text e.bin
   | .strCi => if other == some .strCi then .text e.ci else .text e.bin
   | .dec _ => .decimal
+  | .dbl => .float64   -- GetCompareType(DOUBLE, DOUBLE) (float literals / a DOUBLE column on the other side)
   | .int =>
     match other, first with
     | some (.dec _), _ => .decimal
